@@ -10,7 +10,7 @@ import time
 
 pid = sys.argv[1]
 extra = sys.argv[2:]
-wt = "/tmp/mut/" + pid
+wt = os.environ.get("SEEDED_ROOT", "/tmp/mut") + "/" + pid
 out = os.path.join(wt, "_out")
 env = dict(os.environ, PYTHONPATH=wt, MPLBACKEND="Agg", PYTHONWARNINGS="ignore")
 
@@ -64,7 +64,7 @@ try:
 finally:
     if not in_wt:
         sh("git -C /repo checkout -- .")
-dst = "/verif/seeded/" + pid
+dst = "/verif/seeded/" + pid + os.environ.get("SEEDED_SUFFIX", "")
 os.makedirs(dst, exist_ok=True)
 shutil.copy(patch, dst)
 shutil.copy(os.path.join(out, "demo.py"), dst)
